@@ -1,7 +1,7 @@
 // bxdecay0-run suite (property C13): the program's real main(), command-line parser and driver run
 // in-process; argv comes from the plan, output goes to the simulated disk, time() is simulated.
 //
-//   op cl     cat level mode emin_keV emax_keV seed n act_mBq mdl basestyle logging ; nuclide
+//   op cl     cat level mode emin_keV emax_keV seed n act_mBq mdl basestyle logging order ; nuclide
 //             (cat: 0 none 1 dbd 2 background; -1 = option absent for level/mode/emin/emax/seed/n/act)
 //   op junk   pos kind ; token      (malformed command line: insert a token / drop a value / unknown option)
 //   op wfault kind arg              (1 short writes <=arg bytes, 2 ENOSPC after arg bytes, 3 EIO at write #arg, 4 EIO once (not persistent),
@@ -33,6 +33,7 @@ struct Settings
 {
   int cat = 0; std::string nuc; i64 level = -1, mode = -1, emin = -1, emax = -1, seed = -1, n = -1, act_mBq = -1;
   int mdl = 0; int basestyle = 0;
+  i64 order = 0;   // 0: options in the canonical order; else the key of a permutation of the option groups
   int logging = 0; // 0 absent, 1 mute, 2 verbose, 3 debug, 4 an unsupported level (refused), 5 --help (usage only: nothing is generated)
 };
 
@@ -43,6 +44,7 @@ Settings settings_of(const Op & op)
   s.seed = op.arg(5, -1); s.n = op.arg(6, -1); s.act_mBq = op.arg(7, -1); s.mdl = (int)op.arg(8); s.basestyle = (int)op.arg(9);
   s.nuc = op.str(0);
   s.logging = (int)op.arg(10, 0);
+  s.order = op.arg(11, 0);
   return s;
 }
 
@@ -85,6 +87,17 @@ std::vector<std::string> tokens_of(const Settings & s, const std::string & base)
   }
   if (s.logging >= 1 && s.logging <= 4) { static const char * L[] = {"", "mute", "verbose", "debug", "loud"}; t.push_back(s.logging == 2 ? "--logging" : "-g"); t.push_back(L[s.logging]); }
   if (s.logging == 5) t.push_back("--help");
+  if (s.order != 0) {
+    // the order of the options on the line is the user's: permute the (option, value) groups
+    std::vector<std::vector<std::string>> groups;
+    for (size_t i = 0; i < t.size();) {
+      if (t[i] == "--help") { groups.push_back({t[i]}); i++; }
+      else { groups.push_back({t[i], i + 1 < t.size() ? t[i + 1] : std::string()}); i += 2; }
+    }
+    for (size_t i = groups.size(); i > 1; i--) std::swap(groups[i - 1], groups[(size_t)(hmix((u64)s.order, (u64)i) % i)]);
+    t.clear();
+    for (auto & g : groups) for (auto & x : g) t.push_back(x);
+  }
   if (s.basestyle == 2) { t.push_back("-b"); t.push_back(base); }
   else if (s.basestyle == 3) { t.insert(t.begin(), base); }   // positional first
   else if (s.basestyle != 4) { t.push_back(base); }           // 4: no basename at all -> refused
@@ -106,6 +119,10 @@ Reference reference_run(const Settings & s)
     if (s.act_mBq == 0) throw std::logic_error("activity must be > 0");
     if (s.logging == 4) throw std::logic_error("unsupported logging level");
     if (s.logging == 5) throw std::logic_error("--help: usage is printed, nothing is generated");
+    // "an unsupported nuclide is refused": supported = in the list published for the category (the library API itself
+    // resolves names by prefix and would generate something for 'Bi214' as a background)
+    if (s.cat == 2 && !bxdecay0::background_isotopes().count(s.nuc)) throw std::logic_error("nuclide not in the published background list");
+    if (s.cat == 1 && !bxdecay0::dbd_isotopes().count(s.nuc)) throw std::logic_error("nuclide not in the published DBD list");
     std::default_random_engine engine(seed);
     bxdecay0::std_random prng(engine);
     bxdecay0::decay0_generator g;
@@ -441,7 +458,7 @@ Plan gen_run(u64 seed, u64 idx, const RunCtx & ctx)
   i64 logging = r.chance(0.75) ? 0 : (r.chance(0.8) ? r.range(1, 3) : r.range(4, 5));
   if (n > 100 && logging == 3) logging = 2;
   if (logging == 3 && n > 6) n = 6; // debug logging prints every event
-  c.a = {cat, level, mode, emin, emax, seedv, n, act, mdl, bst, logging}; c.s = {nuc};
+  c.a = {cat, level, mode, emin, emax, seedv, n, act, mdl, bst, logging, r.chance(0.5) ? (i64)r.below(1000000) + 1 : 0}; c.s = {nuc};
   p.ops.push_back(c);
   if (r.chance(0.14)) {
     static const std::vector<std::string> unknown = {"--frobnicate", "-z", "--nbevents", "-"};
